@@ -81,6 +81,10 @@ def source_node(P, F, n, ridge_locals):
             base = (n.get("c") or [None])[0]
             if base is not None and "PointDistanceFromCurvedPlanes" in (base.get("t") or ""):
                 return "a point on the slab surface / below the trench line (%s = 0)" % n.get("n")
+    if k == "CXXMemberCallExpr" and n.get("c") and n["c"][0].get("k") == "MemberExpr" and n["c"][0].get("n") in ("norm", "norm_square"):
+        base = norm.strip_casts((n["c"][0].get("c") or [None])[0])
+        if base is not None and base.get("k") == "DeclRefExpr" and base.get("r") in F.params and "Point<3>" in (P.d(base["r"]).get("t") or ""):
+            return "a query at the planet's centre (the position has length zero)"
     s = astq.subscript(n)
     if s:
         b = norm.strip_casts(s[0])
@@ -464,6 +468,15 @@ def divisions(P, F):
             t = (n.get("t") or "") + " " + (n["c"][1].get("t") or "")
             if "double" in t or "float" in t:
                 yield n
+        elif n.get("k") == "CXXOperatorCallExpr" and n.get("op") in ("/", "/="):
+            kids = [x for x in (n.get("c") or []) if x is not None]
+            if len(kids) >= 2 and "Point<" in (kids[-2].get("t") or "") and "double" in (kids[-1].get("t") or ""):
+                yield n
+
+
+def denominator(n):
+    kids = [x for x in (n.get("c") or []) if x is not None]
+    return kids[-1]
 
 
 def analyse_function(P, F):
@@ -483,7 +496,7 @@ def analyse_function(P, F):
                 J = judges[inline] = Judge(P, F, tainted, inline)
                 J.find_source_locals()
             try:
-                D = J.term(n["c"][1])
+                D = J.term(denominator(n))
                 facts = Facts()
                 for (c, truth) in (conds or []):
                     try:
@@ -508,23 +521,27 @@ def analyse_function(P, F):
             if why:
                 verdict = "zero"
                 detail = "the denominator `%s` is zero for %s and no condition the division depends on excludes it (conditions: %s)" % (
-                    norm.render(P, n["c"][1], nocast=True)[:80], why, "; ".join("%s %s 0" % (e, rl) for (e, rl) in facts.rel[:5]) or "none")
+                    norm.render(P, denominator(n), nocast=True)[:80], why, "; ".join("%s %s 0" % (e, rl) for (e, rl) in facts.rel[:5]) or "none")
             if not detail:
                 detail = "denominator %s; facts %s" % (D, ["%s %s 0" % (e, rl) for (e, rl) in facts.rel][:6])
         out.append((n, verdict, detail if verdict in ("open", "zero") else ""))
     return out
 
 
-def division_guards(P, rep, rule="DIV.guard"):
-    rep.rule(rule, "in the model functions (features/*) no floating-point division has a denominator that vanishes at a degenerate "
-                   "location the property lists -- depth zero, a point on the spreading ridge, on the slab surface or below the "
+def division_guards(P, rep, rule="DIV.guard", reach=None):
+    rep.rule(rule, "in the model functions (features/*) and in the gravity and coordinate-system models reachable from a query no floating-point division has a denominator that vanishes at a degenerate "
+                   "location the property lists -- depth zero, the planet's centre, a point on the spreading ridge, on the slab surface or below the "
                    "trench line, a laterally varying bound that reaches zero, or two such quantities coinciding -- unless a condition "
                    "the division is control dependent on excludes the zero (sign analysis over the CFG's control dependences; "
                    "world-constant denominators are out of scope, other query-dependent denominators are counted as not judged)")
     n_fun = n_div = 0
     tally = {"ok": 0, "const": 0, "open": 0, "zero": 0}
     for F in sorted(P.funcs.values(), key=lambda f: (f.file, f.qn)):
-        if F.body is None or "/source/world_builder/features/" not in F.file:
+        if F.body is None:
+            continue
+        in_models = "/source/world_builder/features/" in F.file
+        on_path = reach is not None and F.key in reach and any(d in F.file for d in ("/source/world_builder/gravity_model/", "/source/world_builder/coordinate_systems/"))
+        if not (in_models or on_path):
             continue
         if not any(True for _ in divisions(P, F)):
             continue
@@ -540,7 +557,7 @@ def division_guards(P, rep, rule="DIV.guard"):
             n_div += 1
             tally[verdict] += 1
             if verdict == "zero":
-                den = norm.render(P, n["c"][1], nocast=True)
+                den = norm.render(P, denominator(n), nocast=True)
                 rep.violation(rule, "%s: division by `%s`" % (F.qn.replace("WorldBuilder::Features::", ""), den[:60]), F.nloc(n), F.qn,
                               norm.render(P, n)[:140], detail, key="%s|%s|%s" % (rule, F.qn, den[:80]),
                               witness="a query at that degenerate location returns NaN or infinity")
